@@ -26,6 +26,7 @@ type Config struct {
 	MaxAlloc       int
 	MaxTermsPerCtx int
 	MapOrder       string
+	SymMakeCap     int
 	Crosscheck     bool
 }
 
@@ -312,7 +313,7 @@ func cmdCheck(args []string) int {
 
 	eng := &Engine{prog: prog, cfg: &Config{
 		TimeoutMs: 60000, MaxDecisions: 4000, MaxSteps: 20_000_000, MaxConcretize: 70000, MaxAlloc: 1 << 20,
-		MaxTermsPerCtx: 1_500_000,
+		MaxTermsPerCtx: 1_500_000, SymMakeCap: 64,
 	}}
 	if *tier == "thorough" {
 		eng.cfg.TimeoutMs = 300000
